@@ -549,8 +549,9 @@ func c06malformed(c *Ctx, g *gjModel, fromFn *types.Func, rule string) {
 	msg, unk := "", ""
 	for _, tn := range types_ {
 		for _, t := range bad {
+			wellFormed := false
 			if d, ok := validDepth[tn]; ok && gjWellFormed(t, d) {
-				continue
+				wellFormed = true // structurally fine (an empty member somewhere): accepting it is the decoder's choice, panicking is not
 			}
 			runs++
 			res, why := m.it.Call(fromFn, nil, []oval{g.geometry(tn, g.jsonValue(t))}, 0)
@@ -565,7 +566,7 @@ func c06malformed(c *Ctx, g *gjModel, fromFn *types.Func, rule string) {
 				}
 				continue
 			}
-			if eq, ok := oEqual(res[1], oNil{}); (!ok || eq) && msg == "" {
+			if eq, ok := oEqual(res[1], oNil{}); (!ok || eq) && msg == "" && !wellFormed {
 				msg = fmt.Sprintf("FromGeoJSON accepts {\"type\":%q,\"coordinates\":%s} and returns %s without an error", tn, t, showVal(res[0]))
 			}
 		}
